@@ -774,9 +774,9 @@ pub fn timing_strategy(near_budget: bool) -> BoxedStrategy<Timing> {
         prop_oneof![3 => Just(0u8), 1 => Just(0x20u8), 1 => Just(0x01u8), 1 => Just(0x08u8), 1 => Just(0x29u8)],
         prop::bool::weighted(0.15),
         // busy after the stop token of a multi-block write: as after any other data block
-        (prop_oneof![6 => (0u16..60), 2 => Just(0u16), 2 => (10_001u16..49_000)], any::<bool>(), any::<bool>()),
+        (prop_oneof![6 => (0u16..60), 2 => Just(0u16), 2 => (10_001u16..49_000)], any::<bool>(), any::<bool>(), any::<bool>()),
     )
-        .prop_map(|(ncr, token_delay, busy_write, busy_stop, init_polls, cmd0_ignored, ocr_extra, sluggish, (busy_stop_write, stop_gap, sticky_status))| Timing {
+        .prop_map(|(ncr, token_delay, busy_write, busy_stop, init_polls, cmd0_ignored, ocr_extra, sluggish, (busy_stop_write, stop_gap, sticky_status, nwr_gap))| Timing {
             ncr,
             token_delay,
             busy_write,
@@ -789,6 +789,7 @@ pub fn timing_strategy(near_budget: bool) -> BoxedStrategy<Timing> {
             busy_stop_write,
             stop_gap,
             sticky_status,
+            nwr_gap,
         })
         .boxed()
 }
@@ -860,7 +861,7 @@ pub fn enumerate_bit_flips(acc: &mut Acc, test: &dyn Fn(&SdCase, &mut Acc) -> Re
                 use_crc: true,
                 acquire_retries: 2,
                 cap: cap.clone(),
-                timing: Timing { ncr: (bit % 9) as u8, token_delay: bit % 5, busy_write: 3, busy_stop: 2, init_polls: 1, cmd0_ignored: 0, ocr_extra: 0, sluggish: false, busy_stop_write: 0, stop_gap: false, sticky_status: false },
+                timing: Timing { ncr: (bit % 9) as u8, token_delay: bit % 5, busy_write: 3, busy_stop: 2, init_polls: 1, cmd0_ignored: 0, ocr_extra: 0, sluggish: false, busy_stop_write: 0, stop_gap: false, sticky_status: false, nwr_gap: false },
                 bg_seed: 77 + bit as u32,
                 calls: vec![SdCall::Write { block: BlockSel::Exact(5), n: 1, seed: bit as u32 }, SdCall::Read { block: BlockSel::Exact(5), n: 1 }, SdCall::Read { block: BlockSel::Exact(5), n: 1 }],
                 faults: vec![Fault::FlipBit { nth_read: 0, bit }],
@@ -883,7 +884,7 @@ pub fn enumerate_bit_flips(acc: &mut Acc, test: &dyn Fn(&SdCase, &mut Acc) -> Re
                         use_crc: false,
                         acquire_retries: 2,
                         cap: cap.clone(),
-                        timing: Timing { ncr: 1, token_delay: 1, busy_write: 0, busy_stop: 0, init_polls: 0, cmd0_ignored: 0, ocr_extra: 0, sluggish: false, busy_stop_write: 0, stop_gap: false, sticky_status: false },
+                        timing: Timing { ncr: 1, token_delay: 1, busy_write: 0, busy_stop: 0, init_polls: 0, cmd0_ignored: 0, ocr_extra: 0, sluggish: false, busy_stop_write: 0, stop_gap: false, sticky_status: false, nwr_gap: false },
                         bg_seed: 3,
                         calls: vec![call, SdCall::Read { block: BlockSel::Zero, n: 1 }],
                         faults: vec![Fault::FlipBit { nth_read: 0, bit }],
